@@ -1,3 +1,3 @@
 From Verif Require Import Extract.C20.
 Require Import ExtrOcamlBasic.
-Extraction "c20_model.ml" c20_final c20_err c20_keepm c20_accepts_mask c20_trim_mask c20_trim_model.
+Extraction "c20_model.ml" c20_final c20_err c20_keepm c20_accepts_mask c20_trim_mask c20_trim_model c20_fingerprint.
